@@ -194,6 +194,28 @@ func runC19(c *Ctx) {
 		if n == 0 {
 			c.undecided("O-3 uniqueness bookkeeping under the lock", "UpdateCountryStats: count change behind the not-seen-yet edges", p.Pos(ucs.Pos()), "no update of CountryStats.counts found")
 		}
+		// every address is entered into its per-type set before anything can make the function return
+		seenTrue := boolEdges(ucs, true, func(v ssa.Value) bool {
+			lk, ok := v.(*ssa.Lookup)
+			return ok && !lk.CommaOk && lk.Index == ssa.Value(addr)
+		})
+		recorded := func(b *ssa.BasicBlock) bool {
+			for _, in := range b.Instrs {
+				if mu, ok := in.(*ssa.MapUpdate); ok && mu.Key == ssa.Value(addr) {
+					return true
+				}
+			}
+			return false
+		}
+		path := psSearch(ucs.Blocks[0], seenTrue, recorded, func(b *ssa.BasicBlock) bool {
+			if len(b.Instrs) == 0 {
+				return false
+			}
+			_, ok := b.Instrs[len(b.Instrs)-1].(*ssa.Return)
+			return ok
+		})
+		c.check(len(seenTrue) >= 2 && path == nil, "O-3 uniqueness bookkeeping under the lock", "UpdateCountryStats records every new address in its per-type set before any other exit", p.Pos(ucs.Pos()), "",
+			"a path returns without the address having been found in, or added to, its per-type set (for example when no geoip database is loaded): the per-period unique-address figures stay too low", p.pathString(path)...)
 	}
 
 	// ---- O-4: only keyed hashes are stored ----
